@@ -22,6 +22,9 @@ const (
 	idRHFilter = "C01-rangeheap-drops-index-filter"
 	idRHType   = "C01-rangeheap-mixed-type-compare"
 	idHashDec  = "C01-hashjoin-decimal-scale-key"
+	// finding of this property: a WHERE / ON conjunct whose only reference to a table is inside a
+	// correlated subquery is attached to a join below the one that supplies that table
+	idCorrSub = "C05-correlated-subquery-filter-misplaced"
 )
 
 func and(l, r gen.Expr) gen.Expr {
